@@ -20,6 +20,15 @@ CHECKS = {
         note="Tree shapes bounded (depth <= 2 quick, <= 3 thorough, two variables); python ints = mathematical integers; "
              "unsupported operand combinations that raise are counted as refused.",
         design="5/C16"),
+    'C07': dict(
+        text="The real pseudo-Boolean encoder is executed with unbounded symbolic integer coefficients/bounds (every literal "
+             "structure enumerated); each path fixes a concrete CNF whose projection on the user variables is decided by z3 "
+             "per assignment and then z3 proves, for all coefficient values on the path, projection <=> the inequality's integer "
+             "meaning (so a silently dropped or mis-encoded constraint is a counterexample). At-most-one/clauses/implications: "
+             "exact projection for every group size in the bound. solve/value/evalexpr: every model a correct SAT solver may return.",
+        note="n<=3 (4 thorough) literal occurrences, coefficient-decomposition coefficients bounded to [-7,7]; PySAT replaced by "
+             "a contract stub returning an arbitrary model; history bounded to 1-2 earlier encodings sharing the diagram store.",
+        design="5/C07"),
 }
 
 PENDING_REASON = "check not built yet in this round (planned in DESIGN.md section 5); nothing is claimed"
